@@ -25,13 +25,24 @@ def gen_state(extra: dict | None = None) -> State:
     return State(env)
 
 
+ORDER_PRESERVING_WRAPPERS = ("enumerate", "list", "tuple", "iter")
+
+
+def unwrap_iterable(v: AV) -> AV:
+    """The collection a loop walks: `enumerate(xs)`, `list(xs)`, ... iterate xs in its own order."""
+    while isinstance(v, App) and v.func in ORDER_PRESERVING_WRAPPERS and v.args:
+        v = v.args[0]
+    return v
+
+
 def find_loops(it: Interp, fi: FuncInfo, pred) -> list[tuple[ast.For, AV, AV, State]]:
-    """Loops of ``fi`` (after a run of ``it``) whose iterable satisfies ``pred(iterable AV)``."""
+    """Loops of ``fi`` (after a run of ``it``) whose iterable satisfies ``pred(iterable AV)`` - directly or inside an
+    order-preserving wrapper such as enumerate()."""
     out = []
     for node in ast.walk(fi.node):
         if isinstance(node, ast.For) and id(node) in it.loops:
             for itv, elem, st in it.loops[id(node)]:
-                if pred(itv):
+                if pred(itv) or (unwrap_iterable(itv) is not itv and pred(unwrap_iterable(itv))):
                     out.append((node, itv, elem, st))
                     break
     return out
@@ -39,6 +50,10 @@ def find_loops(it: Interp, fi: FuncInfo, pred) -> list[tuple[ast.For, AV, AV, St
 
 def run_body(it: Interp, loop: ast.For, entry: State, elem: AV) -> list[Outcome]:
     st = entry.clone()
+    # `for i, x in enumerate(xs)`: the caller's element is x
+    if isinstance(loop.iter, ast.Call) and getattr(loop.iter.func, "id", "") == "enumerate" and isinstance(loop.target, ast.Tuple) and len(loop.target.elts) == 2 \
+            and not (isinstance(elem, ListV) and len(elem.items) == 2 and not elem.open):
+        elem = ListV((Sym("loop-index", "int"), elem), kind="tuple")
     it.assign(loop.target, elem, st)
     finals = it.block(loop.body, [st])
     return [it._outcome(f) if f.status in ("return", "raise") else
